@@ -136,6 +136,14 @@ class Net:
                         yield env.timeout(gap)
                 elif a.get("yield0"):
                     yield env.timeout(0)
+                for _ in range(a.get("late", 0)):
+                    yield env.timeout(0)                 # lands later *inside* the instant (after decisions taken at it)
+                if a.get("again") and last[0] is not None:
+                    # the very same Packet object once more (a retransmitted instance, a hub repeating one object)
+                    if on_inject:
+                        on_inject(last[0], a)
+                    target.put(last[0])
+                    continue
                 n += 1
                 fl = a["flow"]
                 if isinstance(fl, int) and fl > 256:
@@ -147,8 +155,10 @@ class Net:
                     self.pk.snap[self.pk.uid[id(p)]] = tuple(getattr(p, f) for f in FIELDS)
                 if on_inject:
                     on_inject(p, a)
+                last[0] = p
                 target.put(p)
 
+        last = [None]
         return env.process(run())
 
     def drivers(self, target, arrivals, ndrv=2, **kw):
